@@ -14,11 +14,18 @@ Kinds == {"Transport", "Non2xxNonJSON", "EmptyBody", "NonJSON", "ErrorsNoData", 
 
 \* second = what the SECOND request on the same gateway is: the same operation again, or another operation of the menu
 \* that shares a subgraph request with it (chosen by the harness; only generated for small F)
-VARIABLES si, fault, order, second
-gvars == <<si, fault, order, second>>
+\* variant = refinement of the kind of a single failure (the class, and therefore FetchExec, is the same; the harness
+\* interprets it): the status code of Non2xxNonJSON (5xx / 3xx / 4xx), the shape of the errors array of PartialData
+\* (a path-less error before / after the error that points at the hole; path null / empty) and the JSON type of the
+\* "extensions" member of the errors of PartialData / ErrorsNoData.  Only for operations marked vars = 1.
+VARIABLES si, fault, order, second, variant
+gvars == <<si, fault, order, second, variant>>
 
 N(i) == Shapes[i].n
 F(fl, n) == {f \in 1..n : fl[f] # "ok"}
+NVar(k) == CASE k = "PartialData" -> 10 [] k = "ErrorsNoData" -> 6 [] k = "Non2xxNonJSON" -> 5 [] OTHER -> 1
+Variants(i, fl) == IF Cardinality(F(fl, N(i))) = 1 /\ Shapes[i].vars = 1
+                   THEN 0..(NVar(fl[CHOOSE f \in F(fl, N(i)) : TRUE]) - 1) ELSE {0}
 Applicable(i, fl) == \A f \in 1..N(i) : fl[f] = "WrongEntityCount" => Shapes[i].entity[f] = 1
 Assignments(i) ==
   {fl \in [1..N(i) -> Kinds \cup {"ok"}] :
@@ -32,19 +39,20 @@ Assignments(i) ==
 GenInit == /\ si \in 1..Len(Shapes)
            /\ fault \in Assignments(si)
            /\ order = <<>>
-           /\ second \in IF Cardinality(F(fault, N(si))) <= 1 /\ Shapes[si].partner = 1 THEN {"same", "other"} ELSE {"same"}
+           /\ variant \in Variants(si, fault)
+           /\ second \in IF Cardinality(F(fault, N(si))) <= 1 /\ Shapes[si].partner = 1 /\ variant = 0 THEN {"same", "other"} ELSE {"same"}
 Placed == {order[j] : j \in DOMAIN order}
 Before == Prec(Shapes[si].tree)
 Ready == {f \in (1..N(si)) \ Placed : \A g \in 1..N(si) : <<g, f>> \in Before => g \in Placed}
 Faulty == F(fault, N(si))
 Min(S) == CHOOSE x \in S : \A y \in S : x <= y
-Pick == IF Cardinality(Faulty) <= OrdF /\ Cardinality(Faulty) < N(si) THEN Ready
+Pick == IF Cardinality(Faulty) <= OrdF /\ Cardinality(Faulty) < N(si) /\ variant = 0 THEN Ready
         ELSE IF Ready \cap Faulty # {} THEN {Min(Ready \cap Faulty)} ELSE {Min(Ready)}
 GenNext == /\ Ready # {}
            /\ \E f \in Pick : order' = Append(order, f)
-           /\ UNCHANGED <<si, fault, second>>
+           /\ UNCHANGED <<si, fault, second, variant>>
 GenSpec == GenInit /\ [][GenNext]_gvars
 Emit == IF Len(order) = N(si)
-        THEN PrintT(ToJson([op |-> Shapes[si].op, fault |-> fault, order |-> order, second |-> second]))
+        THEN PrintT(ToJson([op |-> Shapes[si].op, fault |-> fault, order |-> order, second |-> second, variant |-> variant]))
         ELSE TRUE
 =============================================================================
